@@ -29,7 +29,7 @@ def pool():
 def plan(tier, seed):
     specs = [(1, 2), (2, 2), (3, 2), (4, 2), (5, 1), (6, 1)] if tier == 'quick' else \
             [(1, 3), (2, 3), (3, 3), (4, 2), (5, 2), (6, 1), (7, 1)]
-    chunks = sweep.shape_chunks(specs, per_chunk=60, kind='shapes')
+    chunks = sweep.shape_chunks(specs, per_chunk=60, big=True, kind='shapes')
     k = 2 if tier == 'quick' else 3
     npool = len(pool())
     seqs = [list(s) for r in range(1, k + 1) for s in itertools.product(range(npool), repeat=r)]
